@@ -93,6 +93,7 @@ var (
 var ops = []*opDef{
 	bin("**", clsPow, true, sII_I),
 	{sym: "-", kind: kPrefix, cls: clsPrefix, core: true, sigs: []sig{{[]typ{tI}, tI}}},
+	{sym: "+", kind: kPrefix, cls: clsPrefix, sigs: []sig{{[]typ{tI}, tI}}},
 	{sym: "!", kind: kPrefix, cls: clsPrefix, core: true, sigs: []sig{{[]typ{tB}, tB}}},
 	{sym: "~", kind: kPrefix, cls: clsPrefix, sigs: []sig{{[]typ{tI}, tI}}},
 	{sym: "(int)", kind: kPrefix, cls: clsCast, core: true, sigs: []sig{{[]typ{tS}, tI}}},
@@ -309,8 +310,8 @@ func (n *node) pr(st style, lt leafText, parent *node, pos int) string {
 	switch n.op.kind {
 	case kPrefix:
 		k := kid(0)
-		if strings.HasPrefix(k, "-") && n.op.sym == "-" {
-			k = " " + k
+		if strings.HasPrefix(k, "-") && n.op.sym == "-" || strings.HasPrefix(k, "+") && n.op.sym == "+" {
+			k = " " + k // never create -- or ++
 		}
 		s = n.op.sym + k
 	case kBinary:
@@ -394,7 +395,7 @@ func posName(p *node, pos int) string {
 func className(o *opDef) string {
 	switch {
 	case o.cls == clsPrefix:
-		return map[string]string{"-": "neg", "!": "not", "~": "bitnot"}[o.sym]
+		return map[string]string{"-": "neg", "+": "pos", "!": "not", "~": "bitnot"}[o.sym]
 	}
 	return o.cls.name
 }
